@@ -22,8 +22,8 @@ type Gated struct {
 	*Mail
 	RemoteMsgs []imap.MessageID // message IDs the remote knows, in creation order
 	BoxRemote  map[string]imap.MailboxID
-	everIn map[imap.MailboxID]map[imap.MessageID]bool // message was in the mailbox at some time
-	nowIn  map[imap.MailboxID]map[imap.MessageID]bool
+	everIn     map[imap.MailboxID]map[imap.MessageID]bool // message was in the mailbox at some time
+	nowIn      map[imap.MailboxID]map[imap.MessageID]bool
 	// OnCmd is called after every client command with the mirror as it stood before.
 	OnCmd func(si int, kind string, before []wire.Entry, r *wire.Result)
 }
